@@ -10,7 +10,7 @@ rule = ("SMA, WMA, SD, BB, MAD, MIN, MAX (scalar streams) and CCI, MFI (bar stre
         "equality of a rolling hash over ALL outputs, and agreement within tau+(t)*maxmag with a fresh exact-rational instance fed only "
         "the current window (from-scratch value). Plus the K7 adversary for WMA (known finding). Non-trivial: distinct case (all are longer "
         "than 100 periods). Plus (quick tier) nine 140000-input streams (code that runs every 2^16 updates), and 600-input streams on the plateau / "
-        "almost-flat / flat / alternating regimes compared with the exact window value at EVERY step (tau is tightest early)")
+        "almost-flat / flat / alternating regimes, and on tight bands [100, 100.004] / [100, 100.0004] (seed-independent), compared with the exact window value at EVERY step (tau is tightest early)")
 assumptions = ["the twin generators use only exact int->float conversions and correctly rounded + - * /; their agreement is itself checked "
                "(a mismatch would show as a T1 failure)",
                "from-scratch value = fresh exact instance on the last period+1 inputs (justified by the finite-memory theorems of C17)"]
@@ -57,6 +57,15 @@ def run(ctx):
                                          r.getrandbits(62), 600, 1.0, 1000.0, 1, (r.choice([1, 1, 2]) if ind in BARS else 0), p + 1,
                                          meta={"ind": ind, "p": p, "regime": g, "band": 1.0, "n": 600, "dense": True}))
                     k += 1
+    # tight bands (seed-independent): a non-constant window whose relative spread is 4e-5 / 4e-6 — "noise floor" clamps of the
+    # running variance and relative flatness tolerances treat it as flat although sd / tau(t)*level is still > 10^4
+    for ind in ("SD", "BB", "MAD", "SMA", "WMA", "CCI"):
+        for p, hi in ((5, 100.004), (20, 100.004), (20, 100.0004)):
+            for g in (5, 0):
+                cases.append(GenCase("t%d_%s_p%d_r%d" % (k, ind, p, g), ind, (p, 0, 0, 2.0 if ind == "BB" else 0.0), g,
+                                     1234567 + k, 600, 100.0, hi, 1, (1 if ind in BARS else 0), p + 1,
+                                     meta={"ind": ind, "p": p, "regime": g, "band": 100.0, "n": 600, "dense": True, "tight": True}))
+                k += 1
     # a few streams well beyond 2^17 inputs in the quick tier too: periodic maintenance code (re-summation every 2^16 updates,
     # counters wrapping at a power of two) only runs there
     if not ctx.thorough:
